@@ -615,7 +615,7 @@ EXCLUDED_POINTS = [
     ("uint8 value equal to the None sentinel", [("s", True, "u8", 253), ("n",), ("s", True, "u8", 2)]),
     ("int/str mixture", [("s", False, "i64", 1), ("s", False, "str", "a"), ("s", False, "i64", 2)]),
     ("int/float mixture", [("s", False, "i64", 1), ("s", False, "f64", 2.5)]),
-    ("two-level ragged python lists of different outer length",
+    ("two-level ragged python lists of different outer length (refused since fix 49d3d18)",
      [("m", False, "i64", [[1, 2], [3]]), ("m", False, "i64", [[4], [5, 6], [7]])]),
     ("numpy bool scalar among ragged arrays (refused since fix 8558ef4)", [("s", True, "b", True), ("l", False, "b", [True, False])]),
     ("str scalar among ragged arrays", [("s", False, "str", "a"), ("l", False, "str", ["b", "c"])]),
